@@ -231,6 +231,8 @@ pub fn line_text(l: &J) -> String {
     match l["kind"].as_str().unwrap() {
         "kv" => format!("k={} v={}", if l["k"]["t"] == "null" { String::new() } else { text_of(&l["k"]) },
                         if l["v"]["t"] == "null" { String::new() } else if l["v"]["t"] == "real" { format!("{:.2}", real_of(&l["v"])) } else { int_of(&l["v"]).to_string() }),
+        "kvpost" => format!("k={} v={}{}", if l["k"]["t"] == "null" { String::new() } else { text_of(&l["k"]) },
+                            if l["v"]["t"] == "null" { String::new() } else { int_of(&l["v"]).to_string() }, text_of(&serde_json::json!({"s": l["post"]}))),
         "garbage" => "###".into(),
         "empty" => String::new(),
         "near" => "k=a v1".into(),
